@@ -104,12 +104,18 @@ def run(prog: Program, ctx: Ctx) -> None:  # noqa: PLR0912,PLR0915
 
     handler = {"MODULE": "_merge_module_stubs", "CLASS": "_merge_class_stubs", "FUNCTION": "_merge_function_stubs", "ATTRIBUTE": "_merge_attribute_stubs"}
     rows = 0
-    for present, stub_alias, ok_, sk, broken in itertools.product((True, False), (False, True), K, K, (False, True)):
+    for present, stub_alias, ok_, sk, broken, also_imported in itertools.product((True, False), (False, True), K, K, (False, True), (False, True)):
         if not present and (broken or ok_ != "MODULE"):
+            continue
+        if also_imported and (stub_alias or broken):
             continue
         events.clear()
         o_m = member(ok_, alias=broken, broken=broken, label="runtime")
         s_m = member(sk, alias=stub_alias, label="stub")
+        # a stub scope may import a name and define it too (version-conditional stubs, `from . import core as core` next to core.pyi): the member is
+        # a real definition, only its name is also in the scope's import map
+        s_m.attrs["is_imported"] = stub_alias or also_imported
+        o_m.attrs.setdefault("is_imported", False)
         members = {"m": o_m} if present else {}
 
         def set_member(name, value, members=members):
@@ -117,7 +123,7 @@ def run(prog: Program, ctx: Ctx) -> None:  # noqa: PLR0912,PLR0915
             members[name] = value
 
         obj = Obj(None, {"members": members, "imports": {}, "get_member": Native(lambda n, members=members: members[n]), "set_member": Native(set_member), "path": "p"})
-        stubs = Obj(None, {"members": {"m": s_m}, "imports": {"x": "y"}})
+        stubs = Obj(None, {"members": {"m": s_m}, "imports": {"x": "y", **({"m": "other.m"} if also_imported else {})}})
         try:
             it.call(mm, obj, stubs)
             raised = None
@@ -137,9 +143,9 @@ def run(prog: Program, ctx: Ctx) -> None:  # noqa: PLR0912,PLR0915
             want = f"{handler[ok_]}(runtime member, stub member)"
             good = raised is None and names == [handler[ok_]] and events[0][1][:2] == (o_m, s_m)
         rows += 1
-        ctx.ob("R2", f"row|present={present}|stub_alias={stub_alias}|runtime={'unresolvable alias' if broken else ok_}|stub={sk}", good,
+        ctx.ob("R2", f"row|present={present}|stub_alias={stub_alias}|runtime={'unresolvable alias' if broken else ok_}|stub={sk}" + ("|name also imported by the stub scope" if also_imported else ""), good,
                f"expected {want}; got events={names} raised={raised}", where(mm))
-        ctx.ob("R2", f"imports|present={present}|{ok_}|{sk}|{stub_alias}|{broken}", obj.attrs["imports"].get("x") == "y", "stub imports are merged into the runtime imports", where(mm), nontrivial=False)
+        ctx.ob("R2", f"imports|present={present}|{ok_}|{sk}|{stub_alias}|{broken}|{also_imported}", obj.attrs["imports"].get("x") == "y", "stub imports are merged into the runtime imports", where(mm), nontrivial=False)
     ctx.expect_min("R2", rows, 60)
     for k in list(it.stubs):
         del it.stubs[k]
@@ -226,7 +232,8 @@ def run(prog: Program, ctx: Ctx) -> None:  # noqa: PLR0912,PLR0915
             return mod_
 
         itm.stubs["_griffe.loader.GriffeLoader._load_module"] = load_module
-        itm.stubs["_griffe.loader.GriffeLoader.expand_wildcards"] = lambda _i, *_a, **_k: None
+        expansions: list[tuple] = []
+        itm.stubs["_griffe.loader.GriffeLoader.expand_wildcards"] = lambda _i, _self, o_, loads=loads, expansions=expansions, **k_: expansions.append((o_, k_.get("external"), len(loads)))
         package = Obj(prog.cls("_griffe.finder.Package"), {"name": "pkg", "path": PurePosixPath(p_), "stubs": PurePosixPath(st_) if st_ else None}, label="package")
         loader = Obj(prog.cls("_griffe.loader.GriffeLoader"), {}, label="loader")
         try:
@@ -242,6 +249,13 @@ def run(prog: Program, ctx: Ctx) -> None:  # noqa: PLR0912,PLR0915
         ctx.ob("R4", f"load-package|{label}|submodules={submodules}", got == want,
                f"{label}, submodules={submodules}: loads {got[0] if len(got) > 1 else got}, returns the runtime module: {got[1] if len(got) > 1 else None}, f -> {got[2] if len(got) > 2 else None}; "
                f"expected {want}", where(lp))
+        if st_ is not None and len(got) > 1:
+            # names the runtime module takes from its private sibling (`from _pkg import *`) must be members before the stubs are merged, or every stub
+            # declaration for them is kept as a stub-only object: the expansion runs first, on the runtime module, and may load `_pkg`
+            exp_ok = any(o_ is loads[0][3] and ext is not False and at == 1 for o_, ext, at in expansions)
+            ctx.ob("R4", f"expand-before-merge|{label}|submodules={submodules}", exp_ok,
+                   f"{label}: wildcard imports of the runtime module are expanded (private sibling `_pkg` allowed) after it is loaded and before its stubs are: "
+                   f"expansions {[(o_.attrs.get('name'), ext, at) for o_, ext, at in expansions]}", where(lp))
     itm.stubs.clear()
 
     # ------------------------------------------------------------------ R5 alias discipline
